@@ -45,10 +45,12 @@ CHECKS = {
            "identity on meta-free strings. Tie: escape() and the three character tables over all 1,114,112 code points. Oracle: Glob::new(escape(s)) text/match/mutants.",
     'C19': "Proved: fold_map with the identity returns the same tree (bounds survive NaturalRange). Tie: tree/program vs model. Oracle: all conversion routes give identical "
            "observables (tree, program, queries, matches, capture spans borrowed/owned).",
-    'C02': "Proved: the walker's component loop verdict model is sound w.r.t. the complete program (see file). Tie: item sequences of real walks over generated on-disk trees "
-           "vs the model's run on the independently read tree. Oracle: independent read_dir traversal filtered by is_match.",
-    'C03': "Proved: not-layer = per-entry filter given the exhaustiveness hypothesis (corollary of the refinement). Tie: partition programs and item sequences. "
-           "Oracle: walk.not(p) vs walk filtered entry by entry.",
+    'C02': "Proved (all trees): given pruning soundness of the component programs, the machine with the glob layer yields exactly the entries the complete program "
+           "matches, in pre-order, each once (C02_walk_yields_exactly_the_matches); kept => matched; a tree discard needs a rejected component. Tie: item sequences of real "
+           "walks over generated on-disk trees vs the model's run on the independently read tree. Oracle: independent read-back filtered by is_match.",
+    'C03': "Proved (all trees, underlying stacks, depth windows): given what an exhaustive verdict promises (C09), not() yields exactly the entries of the underlying "
+           "walk the negation does not match (C03_not_is_a_filter); per-entry characterisation of the filtrate. Tie: partition programs and item sequences. "
+           "Oracle: walk.not(p) vs the underlying walk filtered entry by entry with is_match.",
     'C13': "Proved: the combinator stack machine (walkdir stack + layers with residue transitions) refines the pruned pre-order specification for all trees and stacks. "
            "Tie: full feed sequences observed by a pass-through filter_entry. Oracle: nothing beneath a discarded directory is fed downstream; no sibling is lost.",
     'C14': "Proved: path arithmetic of entries on normalised component lists. Tie: the five accessors of every yielded entry. Oracle: join(root, relative) = path, depth = components.",
